@@ -23,5 +23,22 @@ def gen(rng, n):
     return out
 
 
+RULE_K = ("whole calls (checker-cluster cases as for C01: all callable kinds x sync/async, chains of classes with groups "
+          "of alternative preconditions, conditions / truth tests / captures / error factories / bodies that raise "
+          "exceptions of five classes): the first thing raised ends the call and surfaces as that very object or as the "
+          "library's wrapper chaining it (spec_C11_surface).")
+
+
 def run(tier, replay=None):
-    return K.run(PROP, tier, CONE, "Props/C11.v", "spec_C11", gen, 1500, 20000, RULE, replay=replay)
+    import json
+    import checker_cluster as CK
+    import gen_checker as GCK
+    cone = sorted(set(CONE + CK.MODEL_FILES))
+    out, build, problems = CK.begin(PROP, tier, cone, "Props/C11.v")
+    case = json.load(open(replay)).get("case", {}) if replay else {}
+    if not replay or "kind" not in case:
+        K.run_into(out, build, problems, PROP, tier, "spec_C11", gen, 1500, 20000, RULE, replay=replay)
+    if not replay or "kind" in case:
+        CK.run_into(out, build, problems, PROP, tier, ["spec_C11_surface"], lambda rng, n: GCK.gen_many(rng, n), 1200, 25000,
+                    RULE_K, replay=replay)
+    return out.finish()
